@@ -2,8 +2,11 @@ use crate::framework::Monitor;
 
 pub mod behav;
 pub mod c02;
+pub mod c04;
 pub mod c05;
+pub mod c07;
 pub mod c08;
+pub mod c09;
 pub mod c10;
 pub mod c10_inv;
 pub mod c10_model;
@@ -41,6 +44,9 @@ pub fn make(id: &str) -> Option<Box<dyn Monitor>> {
         "C10" => Some(Box::new(c10::C10::default())),
         "C13" => Some(Box::new(c13::C13::default())),
         "C08" => Some(Box::new(c08::C08::default())),
+        "C07" => Some(Box::new(c07::C07::default())),
+        "C09" => Some(Box::new(c09::C09::default())),
+        "C04" => Some(Box::new(c04::C04::default())),
         "C12" => Some(Box::new(c12::C12::default())),
         _ => None,
     }
